@@ -236,6 +236,9 @@ def build_and_run(k: str, rng, ctx, root: Path, fault, res, phase: str = "both")
                 fn = f"disk {j}-{kind.lower()}.vmdk"
                 sf.write_to(root / fn)
                 lines.append(f'RW {m["capacity"]} {kind} "{fn}"')
+                if rng.random() < 0.3:
+                    # an extent without a file behind it (reads as zeros whoever serves it): nothing needs creating for it
+                    lines.insert(rng.randrange(len(lines) + 1), f"RW {rng.choice([1, 63, 2048, 1 << 31])} ZERO")
             (root / "disk.vmdk").write_text(wvmdk.descriptor_text(lines))
             st["top"] = "disk.vmdk"
         elif k == "vmdk-mono":
@@ -469,7 +472,7 @@ def build_and_run(k: str, rng, ctx, root: Path, fault, res, phase: str = "both")
                     out = out_dir / "plain.bin"
                     args = [str(env), "-ks", str(root / "encryption.info"), "-o", str(out)]
                 else:
-                    variant = rng.choice(["outdir-evidence", "outdir-sub", "wrongkey", "missing-ks", "missing-env", "out-in-evidence", "tampered", "tampered"])
+                    variant = rng.choice(["outdir-evidence", "outdir-sub", "wrongkey", "missing-ks", "missing-env", "out-in-evidence", "tampered", "tampered", "no-output", "no-output"])
                     if variant == "tampered":
                         # an envelope that fails authentication (flipped ciphertext / tag byte): the tool stops; nothing but --output
                         # may appear anywhere (the audit hook sees every open-for-write from repository frames)
@@ -478,9 +481,13 @@ def build_and_run(k: str, rng, ctx, root: Path, fault, res, phase: str = "both")
                         env = out_dir / ("tampered-" + env.name)
                         env.write_bytes(bytes(rawt))
                     out = {"outdir-evidence": root, "outdir-sub": root / "subdir", "wrongkey": out_dir / "w.bin", "missing-ks": out_dir / "m.bin",
-                           "missing-env": out_dir / "e.bin", "out-in-evidence": root / "explicit-output.bin", "tampered": out_dir / "t.bin"}[variant]
+                           "missing-env": out_dir / "e.bin", "out-in-evidence": root / "explicit-output.bin", "tampered": out_dir / "t.bin",
+                           "no-output": out_dir / "never-named.bin"}[variant]
                     ks = root / ("other.info" if variant == "wrongkey" else "nope.info" if variant == "missing-ks" else "encryption.info")
                     args = [str(root / "nope.ve") if variant == "missing-env" else str(env), "-ks", str(ks), "-o", str(out)]
+                    if variant == "no-output":
+                        # the caller names no output file: whatever the tool does then, it has no business writing next to the evidence
+                        args = args[:-2]
                     res["sets"].setdefault("cli_variants", []).append(variant)
                     st["cli_out"] = str(out)
                 ctx.audit.allow_write_paths = {str(out)}
